@@ -38,6 +38,7 @@ struct EncScenario : Scenario {
         int extra = enumerate ? 2 : r.range(1, 4);
         for (int i = 0; i < extra; i++) p.ops.push_back({"ELEM", {r.range(2, 4)}, {rhex(r, 32), rhex(r, 32), rhex(r, 47)}});
         p.ops.push_back({"ELEM", {5}, {rhex(r, 32)}});     // element whose x is small enough for x+q to fit (for plusq)
+        if (g == 1) p.ops.push_back({"ELEM", {6}, {}});    // subgroup element whose x shares its top 32-bit word with q (and -P): boundary of every word-wise "coordinate < q" comparison
         size_t npool = p.ops.size();
         for (size_t e = 0; e < npool; e++) p.ops.push_back({"RT", {(int64_t) e}, {}});
         if (enumerate) {
@@ -131,6 +132,11 @@ struct EncScenario : Scenario {
                         if (src == 4) { R.jv_g2_multiply_affine(c.view, q2.b, gen, k2.data()); R.jv_g2_add(c.view, s.b, p.b, q2.b); } else R.jv_g2_scale_z(s.b, p.b, lam.data());
                         R.jv_g2affine_from_projective(c.view, a, s.b);
                     }
+                } else if (src == 6) {
+                    // [51858613]G: found by an offline search over multiples of the generator; x = 0x1a0111ea05d2... Verified here, not trusted.
+                    std::vector<uint8_t> kk(32, 0); uint32_t kv = 51858613u; memcpy(kk.data(), &kv, 4); c.mul_gen(a, kk);
+                    MPoint m = mpoint_of_affine(R, g, a); bool hit = !m.inf && m.xy.size() >= 4 && m.xy[0] == 0x1a && m.xy[1] == 0x01 && m.xy[2] == 0x11 && m.xy[3] == 0xea;
+                    env.count(hit ? "probe:element_with_x_top_word_equal_to_q_top_word" : "probe:boundary_element_constant_stale");
                 } else {
                     // src 5: a subgroup element whose every coordinate is small enough that coordinate + q still fits in 381 bits
                     Rng r(strhash(op.s.empty() ? "x" : op.s[0].c_str())); bool found = false;
